@@ -902,15 +902,27 @@ def _less_nanlast(x, y):
     return SB(b_or(b_and(b_not(x.nan), y.nan), b_and(b_not(x.nan), b_not(y.nan), (_strip(x) < _strip(y)).t)))
 
 
+def _before(x, y):
+    """Must x be placed before y?  NaN last, stable on ties.  NumPy's SIMD argsort is not
+    stable, so the pair is recorded: witness models used for validation keep such keys distinct
+    (properties over sorted data must be - and are - stated tie-robustly)."""
+    x, y = tor(x), tor(y)
+    if not (x.concrete and y.concrete):
+        c = ctx()
+        if not isinstance(x.v, Fraction) or not isinstance(y.v, Fraction):
+            c.notes.append(("distinct", z3.Or(zb(x.nan), zb(y.nan), zr(x.v) != zr(y.v))))
+    return bool(_less_nanlast(x, y))
+
+
 @impl(np.argsort)
 def _argsort(a, axis=-1, kind=None, **kw):
     a = UF(a)
     if a.ndim != 1:
         raise NotImplementedError("argsort of a non-vector")
     idx: list[int] = []
-    for i in range(a.size):  # insertion sort, stable, forking comparisons
+    for i in range(a.size):  # insertion sort with forking comparisons
         k = len(idx)
-        while k > 0 and bool(_less_nanlast(a[i], a[idx[k - 1]])):
+        while k > 0 and _before(a[i], a[idx[k - 1]]):
             k -= 1
         idx.insert(k, i)
     return np.array(idx, dtype=np.intp)
